@@ -59,7 +59,10 @@ void h_f_constrained(void){
   double x[TSG_NP1 * TSG_NDIM], fv[TSG_NP1]; bool in[TSG_NP1];
   g_nd = a_nd; g_ninside_calls = 0; g_fcalls = 0;
   for (size_t i = 0; i < TSG_NP1; i++) for (size_t d = 0; d < TSG_NDIM; d++) if (i < a_nb && d < a_nd) { x[i * a_nd + d] = nondet_double(); g_x[i][d] = x[i * a_nd + d]; }
-  f_constrained(a_nd, x, a_nb * a_nd, fv, a_nb, in, a_nb);
+  /* the lambda captures by copy; its two call sites pass the positions (num_particles points) and the best positions (num_particles + 1 points, the last is the swarm best) */
+  size_t a_npart = nondet_size_t();
+  __CPROVER_assume(a_npart <= TSG_NP1 && (a_nb == a_npart || a_nb == a_npart + 1));
+  f_constrained(a_nd, a_npart, x, a_nb * a_nd, fv, a_nb, in, a_nb);
   __CPROVER_assert(g_ninside_calls == a_nb, "F19 exactly one domain test per point");
   __CPROVER_assert(g_fcalls <= 1, "F19 at most one batched objective evaluation");
   bool any = false;
